@@ -748,6 +748,10 @@ func runC20(c *engine.Ctx) {
 	// lock racing with another visitor's is a fatal runtime error, not an error response ----
 	c16MapsRule(c, engine.AnalyzeLocks(c.P), "R11")
 	checkRangeSweep(c, "R12")
+	// ---- R13 sessions in flight are counted down on every exit (shared with C16.R29) ----
+	checkCounterBalance(c, "R13")
+	// ---- R14 the owner's answer is kept for a visitor handler that is not waiting yet (shared with C16.R32) ----
+	checkChannelCapacityClass(c, "R14")
 }
 
 // checkEarlyMessages (R10): NatHoleClient and NatHoleReport are sent by peers whenever they like — also before the
